@@ -152,6 +152,51 @@ pub fn null_first_iter() -> ConcCase {
     }
 }
 
+/// F8 (C01): a reader of a tree bin decides per list element whether to walk linearly (a writer
+/// holds or waits for the tree lock) or to enter the tree. `remove_tree_node` unlinks the node from
+/// the list *before* it takes the tree's write lock. A reader whose "linear" decision dates from
+/// the PREVIOUS writer and that performs the corresponding `next` load after the unlink misses a
+/// key that a reader invoked afterwards still finds in the tree: `get(k) = None` and then
+/// `get(k) = Some` without any insert in between.
+///
+/// all-equal hashes, 128 bins, keys 1..=10 (list order 10,1,2,…,9). W1 removes key 3 and holds the
+/// write lock while R1 (`get 9`) walks the list up to key 8 and has read the lock word there; W1
+/// finishes; W2 (`rm 9`) unlinks key 9 from the list and stops before `lock_root`; R1 loads
+/// `8.next = null` and returns None; R2 (`get 9`), started afterwards, enters the tree and finds 9.
+pub fn tree_stale_linear_reader() -> ConcCase {
+    let mut origin = 1100u32;
+    let mut fresh = || {
+        origin += 1;
+        origin
+    };
+    let prefill: Vec<(u32, u64, u32)> = (1..=10u32).map(|k| (k, 0, fresh())).collect();
+    let script = vec![
+        // W1: list unlink of key 3, then the write lock (no reader inside: the first CAS wins)
+        ScriptStep { tid: 0, until: Until::Done { kind: Kind::Cas, what: "lock_state", rel: Rel::Any, count: 1 } },
+        // R1: linear walk over 10,1,2,4,5,6,7,8: the lock word has been read at key 8 …
+        ScriptStep { tid: 1, until: Until::Done { kind: Kind::Load, what: "lock_state", rel: Rel::Any, count: 8 } },
+        // … and the next access is the load of `8.next`
+        ScriptStep { tid: 1, until: Until::Pending { kind: Kind::Load, what: "BinEntry", rel: Rel::Any } },
+        ScriptStep { tid: 0, until: Until::Finished },
+        // W2: found key 9, unlinked it from the list, has not called lock_root yet
+        ScriptStep { tid: 2, until: Until::Done { kind: Kind::Store, what: "BinEntry", rel: Rel::Any, count: 1 } },
+        ScriptStep { tid: 1, until: Until::Finished },
+        ScriptStep { tid: 3, until: Until::Finished },
+        ScriptStep { tid: 2, until: Until::Finished },
+    ];
+    ConcCase {
+        id: 3,
+        seed: 0xF8,
+        hash_class: "scenario:tree-stale-linear-reader",
+        hashes: vec![0; 64],
+        cap: 64,
+        prefill,
+        programs: vec![vec![COp::Rm(3)], vec![COp::Get(9)], vec![COp::Rm(9)], vec![COp::Get(9)]],
+        policy: Policy::Script(script),
+        pin: false,
+    }
+}
+
 pub fn all() -> Vec<(&'static str, ConcCase)> {
-    vec![("stale-helper", stale_helper()), ("clear-in-transfer-window", clear_in_transfer_window()), ("null-first-iter", null_first_iter())]
+    vec![("stale-helper", stale_helper()), ("clear-in-transfer-window", clear_in_transfer_window()), ("null-first-iter", null_first_iter()), ("tree-stale-linear-reader", tree_stale_linear_reader())]
 }
